@@ -196,6 +196,44 @@ def specRun (e : Elem) : Nat → List Op → List Resp
   | ver, .clear :: ops => .done :: specRun e ver ops
   | ver, .set :: ops => .done :: specRun e (ver + 1) ops
 
+/-! ### Grids: coordinates *and* weights
+
+`Grid.__eq__` / `Grid.__hash__` look at the coordinates only (C10), but what `make_instance` builds
+generally depends on the weights too (every Fourier transform does).  A grid is therefore a pair of ids
+(coordinates, weights) and the `GridId` under which the cache sees it is `_get_grid_key(grid)`, a digest of
+`hash(grid)` *and* the weights (repair `pending_fixes/D505-agnostic-cache-key-weights.diff`).  The driver
+ops `req`/`reqc` receive grids as `<coord>.<weights>` and run `gridKey` on them. -/
+
+structure Grid where
+  /-- id standing for the coordinates (what `__eq__`/`__hash__` cover) -/
+  coord : Nat
+  /-- id standing for the weights (shape and values) -/
+  weights : Nat
+deriving DecidableEq, Repr
+
+/-- An injective pairing of two naturals (the definition of Mathlib's `Nat.pair`). -/
+def pair (a b : Nat) : Nat := if a < b then b * b + a else a * a + a + b
+
+/-- `_get_grid_key(grid)`: the part of a cache key that stands for a grid. -/
+def gridKey (g : Grid) : GridId := pair g.coord g.weights
+
+/-- The unrepaired key part `hash(grid)`: coordinates only (for the proved counterexample; no driver op
+runs a `Mutant.*` definition). -/
+def Mutant.gridKeyCoords (g : Grid) : GridId := g.coord
+
+/-- Histories on actual grids. -/
+inductive OpG
+  | req (i o : Option Grid) (w : Option WlKey)
+  | clear
+  | set
+deriving DecidableEq, Repr
+
+/-- What the cache sees of a history, for a given key function. -/
+def OpG.toOp (gk : Grid → GridId) : OpG → Op
+  | .req i o w => .req (i.map gk) (o.map gk) w
+  | .clear => .clear
+  | .set => .set
+
 /-! ### Scratch state of the Fourier objects owned by the instances
 
 `MatrixFourierTransform` keeps matrices computed for one complex dtype (`matrices_dtype`),
